@@ -328,6 +328,7 @@ func vfShape(g *vfGen) {
 func vfPerType_C03(typ string) {
 	g := &vfGen{prefix: "n", depth: 1, listLen: 1, symFlags: true, symToks: true}
 	vfShape(g)
+	vfLeafVariant(g, typ) // e.g. explicit / implicit empty statements, an Ellipsis without element
 	n := g.Node(typ)
 	r := vfRestorer()
 	r2 := vfCopyRestorer(r)
@@ -410,22 +411,7 @@ func vfPerType_C13(typ string) {
 	g := &vfGen{prefix: "n", depth: 1, listLen: 2}
 	// which kind of leaf stands for statement / expression children (e.g. a label in front of a closing
 	// brace carries an implicit empty statement; an array length can be an Ellipsis without element)
-	nv := 1
-	if len(info.StmtFields) > 0 {
-		nv += 3
-	}
-	if len(info.ExprFields) > 0 {
-		nv += 2
-	}
-	if v := vfChoice("leafvariant", nv); v > 0 {
-		if len(info.StmtFields) > 0 && v <= 3 {
-			g.stmtLeaf = v
-		} else if len(info.StmtFields) > 0 {
-			g.exprLeaf = v - 3
-		} else {
-			g.exprLeaf = v
-		}
-	}
+	vfLeafVariant(g, typ)
 	k := vfChoice("nil", len(info.Optional)+2)
 	if k == len(info.Optional) {
 		g.nilField = "*"
@@ -840,4 +826,25 @@ func VerifC04FileReuse() {
 		}
 	}
 	vfAssert(k == len(texts), "first-file-comments-unchanged-by-second-restore")
+}
+
+// vfLeafVariant forks over the kind of leaf standing for statement / expression children of typ.
+func vfLeafVariant(g *vfGen, typ string) {
+	info := vfNodeInfo[typ]
+	nv := 1
+	if len(info.StmtFields) > 0 {
+		nv += 3
+	}
+	if len(info.ExprFields) > 0 {
+		nv += 2
+	}
+	if v := vfChoice("leafvariant", nv); v > 0 {
+		if len(info.StmtFields) > 0 && v <= 3 {
+			g.stmtLeaf = v
+		} else if len(info.StmtFields) > 0 {
+			g.exprLeaf = v - 3
+		} else {
+			g.exprLeaf = v
+		}
+	}
 }
